@@ -743,28 +743,49 @@ Ltac dz :=
   | H : context [?x <? ?y] |- _ => destruct (Z.ltb_spec x y)
   end; cbn [negb] in *; try done; try lia.
 
+Definition vec (p : prio) (k : (Z * Z * Z) * Z) : Z * Z * Z * Z :=
+  let '((h, n, l), i) := k in
+  match p with
+  | High => (- h, - n, - l, i)
+  | Normal => (- n, - l, h, i)
+  | Low => (- l, h, n, i)
+  | NoPrio => (0, 0, 0, i)
+  end.
+Definition lexlt (x y : Z * Z * Z * Z) : Prop :=
+  let '(x1, x2, x3, x4) := x in let '(y1, y2, y3, y4) := y in
+  x1 < y1 ∨ (x1 = y1 ∧ (x2 < y2 ∨ (x2 = y2 ∧ (x3 < y3 ∨ (x3 = y3 ∧ x4 < y4))))).
+
+Lemma set_less_lex p a b : set_less p a b = true <-> lexlt (vec p a) (vec p b).
+Proof.
+  destruct a as [[[ah an] al] ai], b as [[[bh bn] bl] bi], p;
+    unfold set_less, cmp_counts, favor, repel, prios_from, prios_below, cnt_at, lexlt, vec;
+    cbn [fst snd Z.ltb Z.compare andb bool_decide]; dz; split; intros; try lia; try done.
+Qed.
+
 Lemma set_less_irrefl p a : set_less p a a = false.
 Proof.
-  destruct a as [[[ah an] al] ai], p; unfold set_less, cmp_counts, favor, repel, prios_from, prios_below, cnt_at;
-    cbn [fst snd Z.ltb Z.compare andb bool_decide]; dz.
+  destruct (set_less p a a) eqn:E; [|done]. apply set_less_lex in E.
+  destruct (vec p a) as [[[x1 x2] x3] x4]. unfold lexlt in E. lia.
 Qed.
 
 Lemma set_less_trans p a b c : set_less p a b = true -> set_less p b c = true -> set_less p a c = true.
 Proof.
-  destruct a as [[[ah an] al] ai], b as [[[bh bn] bl] bi], c as [[[ch cn] cl] ci], p;
-    unfold set_less, cmp_counts, favor, repel, prios_from, prios_below, cnt_at;
-    cbn [fst snd Z.ltb Z.compare andb bool_decide]; dz.
+  rewrite !set_less_lex.
+  destruct (vec p a) as [[[x1 x2] x3] x4], (vec p b) as [[[y1 y2] y3] y4], (vec p c) as [[[z1 z2] z3] z4].
+  unfold lexlt. lia.
 Qed.
 
 Lemma set_less_total p a b : a.2 ≠ b.2 -> set_less p a b = true ∨ set_less p b a = true.
 Proof.
-  destruct a as [[[ah an] al] ai], b as [[[bh bn] bl] bi], p;
-    unfold set_less, cmp_counts, favor, repel, prios_from, prios_below, cnt_at;
-    cbn [fst snd Z.ltb Z.compare andb bool_decide]; intros Hne; dz; auto.
+  intros Hne. rewrite !set_less_lex.
+  assert (Hv : (vec p a).2 ≠ (vec p b).2).
+  { destruct a as [[[ah an] al] ai], b as [[[bh bn] bl] bi], p; exact Hne. }
+  destruct (vec p a) as [[[x1 x2] x3] x4], (vec p b) as [[[y1 y2] y3] y4].
+  unfold lexlt. simpl in Hv. lia.
 Qed.
 
 Lemma set_less_asym p a b : set_less p a b = true -> set_less p b a = false.
 Proof.
   intros H. destruct (set_less p b a) eqn:E; [|done].
-  pose proof (set_less_trans p a b a H E). by rewrite set_less_irrefl in H0.
+  pose proof (set_less_trans p a b a H E) as H0. by rewrite set_less_irrefl in H0.
 Qed.
